@@ -565,7 +565,7 @@ func TestC09HostRegistry(t *testing.T) {
 	defer vt.Watch("TestC09HostRegistry", 120*time.Second)()
 	rec := vt.For("C09")
 	rec.Rule("rapid state machine over 1-3 hosts and a client in virtual time: connect(h) on a fresh connection (the harness does what server.go does: Remote.Serve per connection, CloseRemote when it returns), close(any open connection, in any order), probe = peer request for all hosts, closeDuring(h) = close h's current connection while its whitelist call is in flight; oracle (registry model): current[h] = connection h most recently registered on if still open; NumRemotes == #hosts with a live current connection; every probe sends vipnode_whitelist exactly to the current connections (never to a closed or superseded one, once each) and returns exactly those hosts; closeDuring: returns within 5s without the closing host; no goroutine left blocked at the end; non-trivial = history with a reconnect and a close of a non-current connection; distinct by op sequence")
-	rapid.Check(t, func(rt *rapid.T) {
+	check(t, func(rt *rapid.T) {
 		rapid.SyncTest(rt, func(rt *rapid.T) { c09Case(rt, rec) })
 	})
 }
